@@ -142,6 +142,20 @@ pub fn curated() -> Vec<(&'static str, Spec, bool)> {
     add("class_to_max", false, vec![Pat::bregex(b"q[\\x80-\\xff]"), Pat::bregex(b"[a-z]")]);
     add("loop_from_nul", true, vec![r("«[\\x00-\\x7F]*»"), r("<[\\x00-\\x3b]*>"), r("[a-z]")]);
     add("loop_from_nul_b", false, vec![Pat::bregex(b"\\xFF[^\\xFF]*\\xFF"), Pat::bregex(b"[a-z]+")]);
+    // more than eight self-looping classes that need a look-up table (the tables hold eight bits
+    // each), and more than 64 states
+    {
+        let mut pats = vec![];
+        for (i, c) in "abcdefghijkl".chars().enumerate() {
+            pats.push(r(&format!("{c}[{c}{}{}_#]+", i % 10, (i + 3) % 10)));
+        }
+        pats.push(s(" +"));
+        add("many_luts", true, pats);
+        let mut pats: Vec<Pat> = (0..70).map(|i| t(&format!("kw{i:02}"))).collect();
+        pats.push(r("[a-z][a-z0-9]*").prio(1));
+        pats.push(s("[ \n]+"));
+        add("many_tokens", true, pats);
+    }
     // skips recognised by a late-accept state (the skip ends in a look-ahead assertion)
     add("skip_la_eol", true, vec![s("//[^\n]*(?m:$)").greedy(), r("[a-z]+"), t("\n"), t("/")]);
     add("skip_la_end", true, vec![s("#[a-z]*$"), r("[a-z]+"), t("#").prio(1)]);
